@@ -229,6 +229,7 @@ var Pinned = []PinnedPair{
 	{Hash: "10eab6008d5642cf42abd2aa41f847cb", Hex: 10, A: "kk2kvg1ey5031ts", B: "kk1zdqw2983p6gw"},
 	{Hash: "10eab6008d5642cf42abd2aa41f847cb", Hex: 12, A: "kk29c3no4h9ts00", B: "kk12w452c7r7f9c"},
 	{Hash: "10eab6008d5642cf42abd2aa41f847cb", Hex: 14, A: "kk1g5m6ve0ogjr4", B: "kk22ibrqo3yow00"},
+	{Hash: "10eab6008d5642cf42abd2aa41f847cb", Hex: 16, A: "kk1qnhsz4eicz1v", B: "kk1lrjhkvrxlgmh"}, // 2^33.7 MD5 evaluations, 1 h 57 min
 	{Hash: "9a25b027482b37e047104e2e532cabae", Hex: 12, A: "kk1cp0gg63sbda8", B: "kk36vmgzujkyl8g"},
 	{Hash: "9a25b027482b37e047104e2e532cabae", Hex: 14, A: "kk0sew7p76rke0w", B: "kk1y11kgl35r30g"},
 	// PINNED-END
